@@ -1485,42 +1485,50 @@ def _unmatched_stmt_ids(fn, ref_fps):
 
 
 def direct_function(fn, ref_fps: List[str], known_names: set, stored_attrs, normalise: Callable, budget: int = 400) -> int:
-    """best-first search over the semantics-preserving rewrites: a state is accepted when it is strictly closer to the reference;
-    states at the same distance (plateau) are explored up to the budget, because some spellings are two or three rewrites apart."""
+    """best-first search over the semantics-preserving rewrites. A state is better when MORE of its statements are spelled like
+    the reference (fewer statements alone is not progress: the function would end in a third spelling nobody wrote). States
+    that are not better are explored up to three rewrites deep, because some spellings are two or three rewrites apart.
+    Returns the number of statements of the result that still differ."""
     import heapq
     import types
     debug = os.environ.get("CANON_DEBUG")
     ref_counter = Counter(ref_fps)
 
-    def key(f):
-        return tuple(fingerprints(f))
+    def score(f):
+        fps = fingerprints(f)
+        a = Counter(fps)
+        matched = sum((a & ref_counter).values())
+        unmatched = sum(((a - ref_counter) + (ref_counter - a)).values())
+        return matched, unmatched, tuple(fps)
 
     def settle(f):
-        # inlining of fresh temporaries never competes with the other rewrites: applied to a fixpoint
+        # inlining of fresh temporaries: applied as long as no matched statement is lost
         for _ in range(30):
-            if not inline_fresh(f, known_names, stored_attrs):
+            m0 = score(f)[0]
+            trial = copy.deepcopy(f)
+            if not inline_fresh(trial, known_names, stored_attrs):
                 break
+            normalise(trial)
+            if score(trial)[0] < m0:
+                break
+            f.body = trial.body
         normalise(f)
 
     cur = copy.deepcopy(fn)
-    d = distance(cur, ref_fps)
-    trial = copy.deepcopy(cur)
-    settle(trial)
-    if distance(trial, ref_fps) <= d:
-        cur, d = trial, distance(trial, ref_fps)
-    seen = {key(cur)}
+    settle(cur)
+    m, u, k0 = score(cur)
+    seen = {k0}
     evals = 0
     counter = 0
-    heap = [(d, 0, counter, cur)]
-    best, best_d = cur, d
-    while heap and best_d > 0 and evals < budget:
-        dist_, depth_, _, state = heapq.heappop(heap)
-        if dist_ > best_d + 2:
-            continue
+    heap = [((-m, u), 0, counter, cur)]
+    best, best_m, best_u = cur, m, u
+    while heap and best_u > 0 and evals < budget:
+        (neg_m, u_), depth_, _, state = heapq.heappop(heap)
         hot = _unmatched_stmt_ids(state, ref_fps)
         near = _near_index(state, hot)
         cs_state = candidates_all(state, stored_attrs, ref_fps)
         todo = [k for k, (_, _, anchor) in enumerate(cs_state) if anchor is None or near(anchor)]
+        restarted = False
         for k in todo:
             kind, f0, anchor = cs_state[k]
             memo: dict = {}
@@ -1536,33 +1544,35 @@ def direct_function(fn, ref_fps: List[str], known_names: set, stored_attrs, norm
             try:
                 apply()
                 settle(t)
-                fps_t = fingerprints(t)
-                a_, b_ = Counter(fps_t), ref_counter
-                nd = sum(((a_ - b_) + (b_ - a_)).values())
+                tm, tu, kk = score(t)
             except Exception as ex:       # a rewrite that cannot be applied here
                 if debug:
                     print("canon_rw:", kind, "failed:", repr(ex))
                 continue
             evals += 1
-            kk = tuple(fps_t)
             if kk in seen:
                 continue
             seen.add(kk)
-            if debug and nd < best_d:
-                print(f"canon_rw: {fn.name}: {kind}: {best_d} -> {nd}")
-            if nd < best_d:
-                best, best_d = t, nd
-                heap = [(nd, depth_ + 1, counter, t)]      # restart from the improvement
+            if tm > best_m or (tm == best_m and tu < best_u and tu == 0):
+                if debug:
+                    print(f"canon_rw: {fn.name}: {kind}: matched {best_m} -> {tm}, different {best_u} -> {tu}")
+                best, best_m, best_u = t, tm, tu
                 counter += 1
+                heap = [((-tm, tu), 0, counter, t)]      # restart from the improvement
+                restarted = True
                 break
-            if nd <= best_d + 2 and depth_ < 3:
+            if depth_ < 3 and tm >= best_m - 1:
                 counter += 1
-                heapq.heappush(heap, (nd, depth_ + 1, counter, t))
+                heapq.heappush(heap, ((-tm, tu), depth_ + 1, counter, t))
             if evals >= budget:
                 break
-    if best is not fn and best_d < distance(fn, ref_fps):
+        if restarted:
+            continue
+    if best_m > score(fn)[0] or (best is not cur and best_m == score(fn)[0] and best_u < score(fn)[1]):
         fn.body = best.body
-    return best_d
+    elif score(cur)[0] >= score(fn)[0] and score(cur)[1] < score(fn)[1]:
+        fn.body = cur.body
+    return best_u
 
 
 def _near_index(fn, hot):
